@@ -563,7 +563,8 @@ def stage_layered_corners(ctx):
         ctx.explored += 1
         ctx.count("layered-small-absorbing")
         if not (cext > 0 and cabs >= -TOL_LAYSMALL * cext):
-            ctx.violation("mie:layered-small-x-absorbing", "layered sphere, Im(n) <= 1e-6, size parameter <= 5e-3: "
+            ctx.violation("mie:layered-small-x:cext-rounding:weakly-absorbing" if (math.isfinite(cscat) and cscat > 0) else "mie:layered-small-x-absorbing:cscat",
+                          "layered sphere, Im(n) <= 1e-6, size parameter <= 5e-3: "
                           "negative absorption (cabs < -1e-3 cext) or extinction <= 0",
                           dict(kind="xmie", sphere=dict(n=ns, r=rs, nm=nm, wl=wl, x=x, layers=nl), pol=(1, 0),
                                cross_sections=[cscat, cabs, cext, g]))
@@ -685,6 +686,84 @@ def stage_multisphere(ctx):
     report(ctx, "C03ms", exprs, metas, ["raw_cross_sections"])
 
 
+def stage_multisphere_large(ctx):
+    """one-sphere cluster vs single-sphere theory near the upper end of the cluster code's single-sphere range
+    (size parameter 14-19, moderate index so that the default truncation tolerances are adequate): all four numbers,
+    and the reported asymmetry against the solid-angle integral of the cluster theory's own scattering matrix"""
+    import numpy as np
+    from holopy.scattering import Sphere, Multisphere, calc_cross_sections
+    rng = ctx.subrng("ms-large")
+    for kcase in range(ctx.n(4, 12)):
+        nm, wl = gen_medium(rng)
+        k = 2 * np.pi / (wl / nm)
+        x = rng.uniform(14.0, 19.0)
+        n = complex(rng.uniform(1.15, 1.5), rng.choice([0.0, 0.0, loguni(rng, 1e-4, 1e-2)])) * nm
+        if n.imag == 0:
+            n = n.real
+        s = Sphere(n=n, r=x / k, center=(0, 0, 0))
+        pol = gen_pol(rng)
+        mie4 = [float(v) for v in calc_cross_sections(s, nm, wl, pol).values]
+        with warnings.catch_warnings():
+            warnings.simplefilter("ignore")
+            ms4 = [float(v) for v in calc_cross_sections(s, nm, wl, pol, theory=Multisphere()).values]
+        ctx.explored += 1
+        ctx.count("ms-large")
+        ctx.nontriv(("ms-large", round(x, 1)))
+        data = dict(kind="ms", sphere=dict(n=n, r=x / k, nm=nm, wl=wl, x=x, layers=1), pol=pol, mie=mie4, multisphere=ms4)
+        err = max(abs(ms4[i] - mie4[i]) / mie4[2] for i in range(3))
+        if not STAT.see("ms-vs-mie:cross-sections", err, TOL_MS):
+            ctx.violation("ms:one-sphere-vs-mie:large", "Multisphere(one sphere) cross sections differ from Mie (size parameter 14-19)", data)
+        if not STAT.see("ms-vs-mie:g", abs(ms4[3] - mie4[3]), TOL_MS):
+            ctx.violation("ms:one-sphere-vs-mie-g:large", "Multisphere(one sphere) asymmetry differs from Mie (size parameter 14-19)", data)
+
+
+def stage_quadrature_large(ctx):
+    """integral forms at large size parameter, where the Gauss-Legendre rule needs several hundred nodes (one
+    calc_scat_matrix call with 300-600 angles), and independence of a scattering-matrix entry from the batch it was
+    computed in (the same angles asked for in a small batch)"""
+    import numpy as np
+    from holopy.scattering import Mie, calc_cross_sections, calc_scat_matrix
+    from holopy.core.metadata import detector_points
+    rng = ctx.subrng("quad-large")
+    for kcase in range(ctx.n(5, 30)):
+        s, nm, wl, k, x, kind, desc = gen_sphere(rng, 30.0, layered_p=0.3)
+        # rescale the generated sphere to a large size parameter
+        xt = rng.uniform(230.0, 470.0) if kcase % 5 else rng.uniform(90.0, 130.0)
+        f = xt / x
+        from holopy.scattering import Sphere
+        rr = [float(v) * f for v in np.atleast_1d(s.r)]
+        s = Sphere(n=s.n, r=rr if len(rr) > 1 else rr[0], center=(0, 0, 0))
+        desc = dict(desc, r=rr, x=xt)
+        if nonfinite_key(dict(desc, n=[complex(v) for v in np.atleast_1d(s.n)]), "").endswith("exp-overflow"):
+            continue    # the recorded overflow finding; layered-corners reports it
+        cscat, cabs, cext, g = [float(v) for v in calc_cross_sections(s, nm, wl, (1, 0)).values]
+        if not all(math.isfinite(v) for v in (cscat, cabs, cext, g)):
+            continue    # reported by the other stages under their own keys
+        nco = Mie()._scat_coeffs(s, k, nm).shape[1]
+        npts = max(nco + 8, 300)
+        cq_, gq = gl_cscat_g(s, nm, wl, k, npts)
+        ctx.explored += 1
+        ctx.count("quad-large")
+        ctx.nontriv(("quad-large", kind, desc["layers"], round(xt, -1)))
+        data = dict(kind="xmie", sphere=desc, pol=(1, 0), cross_sections=[cscat, cabs, cext, g], quadrature=[cq_, gq], nodes=npts)
+        cls = "%s:%s" % ("layered" if desc["layers"] > 1 else "uniform", kind)
+        if not STAT.see("quadrature-large:cscat", abs(cq_ - cscat), TOL_QUAD * cscat):
+            ctx.violation("mie:integral-cscat:large:" + cls, "cscat differs from the solid-angle integral of |S|^2 (size parameter > 90, "
+                          "%d quadrature angles in one call)" % npts, data)
+        if not STAT.see("quadrature-large:g", abs(gq - g), TOL_QUAD):
+            ctx.violation("mie:integral-g:large:" + cls, "asymmetry parameter differs from the integral form (size parameter > 90)", data)
+        # an entry does not depend on the batch: 5 of the angles again, alone
+        mu, w = np.polynomial.legendre.leggauss(npts)
+        th = np.arccos(mu)
+        big = calc_scat_matrix(detector_points(theta=th, phi=np.zeros_like(th)), s, nm, wl).values
+        idx = sorted(rng.sample(range(npts), 5))
+        small = calc_scat_matrix(detector_points(theta=th[idx], phi=np.zeros(5)), s, nm, wl).values
+        dev = float(np.abs(big[idx] - small).max() / np.abs(big).max())
+        if not STAT.see("smatrix:batch-independence", dev, 1e-9):
+            ctx.violation("mie:smatrix-batch:" + cls, "scattering-matrix entries depend on how many angles are requested in one call "
+                          "(max relative deviation %.2e)" % dev, dict(data, angles_idx=idx))
+
+
 def run(ctx):
     ctx.rule = ("spheres: size parameter 1e-3..100 (exploration to 500 in the thorough tier), relative index real "
                 "(incl. < 1), weakly and strongly absorbing, 1-3 layers, media 1.0-1.7, wavelengths 0.3-1.2, random "
@@ -737,6 +816,8 @@ def run(ctx):
     timed("layered-small", stage_layered_small, ctx)
     timed("layered-corners", stage_layered_corners, ctx)
     timed("multisphere", stage_multisphere, ctx)
+    timed("multisphere-large", stage_multisphere_large, ctx)
+    timed("quadrature-large", stage_quadrature_large, ctx)
     ctx.notes.append("stage wall times: " + ", ".join(times))
     ctx.notes.append("max observed error / tolerance per check: " +
                      ", ".join("%s=%.2g" % kv for kv in sorted(STAT.m.items())))
